@@ -119,6 +119,25 @@ def fam_mixed(rng, n):
     return out
 
 
+def fam_evicting(rng, n):
+    """F5: a caller-supplied mapping that evicts (keeps one key), two keys, several loops: callers must
+    still only see their own outcomes (C05/C06); C01's once-done clause does not apply here."""
+    out = []
+    for _ in range(n):
+        cid = itertools.count(1)
+        nl = rng.choice([2, 3, 3])
+        loops = []
+        for li in range(nl):
+            nc = rng.choice([1, 2, 2])
+            loops.append({'name': 'L%d' % (li + 1), 'start': rng.choice([0.0, 0.0, 0.5]),
+                          'callers': [{'c': next(cid), 'k': rng.choice(['a', 'a', 'b']), 'at': rng.choice([0.0, 0.0, 0.5, 1.0])}
+                                      for _ in range(nc)],
+                          'life': 'full'})
+        out.append({'loops': loops, 'func': {'dur': rng.choice([0, -1, 0.5, 1.0])}, 'mapping': 'tiny',
+                    'strategy': _strategies(rng, 1)[0]})
+    return out
+
+
 def directed():
     """Hand-written histories for the windows named in the property anchors."""
     out = []
@@ -165,14 +184,14 @@ def nontrivial(sc, r):
 
 
 SIZES = {
-    'quick':    {'contention': 500, 'lifecycle': 500, 'faults': 400, 'mixed': 300},
-    'thorough': {'contention': 8000, 'lifecycle': 10000, 'faults': 8000, 'mixed': 8000},
+    'quick':    {'contention': 500, 'lifecycle': 500, 'faults': 400, 'mixed': 300, 'evicting': 500},
+    'thorough': {'contention': 8000, 'lifecycle': 10000, 'faults': 8000, 'mixed': 8000, 'evicting': 8000},
 }
 
 WEIGHT = {  # which families matter most for which property
-    'C01': {'contention': 1.5, 'lifecycle': 1.5, 'faults': 0.5, 'mixed': 0.5},
-    'C05': {'contention': 0.7, 'lifecycle': 1.3, 'faults': 1.0, 'mixed': 1.0},
-    'C06': {'contention': 0.4, 'lifecycle': 1.0, 'faults': 1.5, 'mixed': 1.3},
+    'C01': {'contention': 1.5, 'lifecycle': 1.5, 'faults': 0.5, 'mixed': 0.5, 'evicting': 0},
+    'C05': {'contention': 0.7, 'lifecycle': 1.3, 'faults': 1.0, 'mixed': 1.0, 'evicting': 0.6},
+    'C06': {'contention': 0.4, 'lifecycle': 1.0, 'faults': 1.5, 'mixed': 1.3, 'evicting': 1.2},
 }
 
 MC_CFGS = {
@@ -197,11 +216,29 @@ def run(ctx):
     ctx.run_and_validate(DRIVER, COMP, TRACE, directed(), 'directed', nontrivial=nontrivial,
                          known_match=known_match)
     for fam, gen in (('contention', fam_contention), ('lifecycle', fam_lifecycle),
-                     ('faults', fam_faults), ('mixed', fam_mixed)):
+                     ('faults', fam_faults), ('mixed', fam_mixed), ('evicting', fam_evicting)):
         n = int(sz[fam] * w[fam])
         for off in range(0, n, 4000):
             ctx.run_and_validate(DRIVER, COMP, TRACE, gen(rng, min(4000, n - off)), fam,
                                  nontrivial=nontrivial, known_match=known_match)
+    # 2b. systematic schedule exploration (preemption-bounded) of the smallest scenarios
+    small = [
+        ('dfs_2loops_zero', {'loops': [{'name': 'L1', 'callers': [{'c': 1, 'k': 'a'}], 'life': 'full'},
+                                       {'name': 'L2', 'callers': [{'c': 2, 'k': 'a'}], 'life': 'full'}],
+                             'func': {'dur': 0}, 'mapping': 'dict'}, 2),
+        ('dfs_3loops_tiny', {'loops': [{'name': 'L1', 'callers': [{'c': 1, 'k': 'a'}], 'life': 'full'},
+                                       {'name': 'L2', 'callers': [{'c': 2, 'k': 'a'}], 'life': 'full'},
+                                       {'name': 'L3', 'callers': [{'c': 3, 'k': 'b'}], 'life': 'full'}],
+                             'func': {'dur': 0}, 'mapping': 'tiny'}, 2),
+        ('dfs_2loops_early', {'loops': [{'name': 'L1', 'callers': [{'c': 1, 'k': 'a'}], 'life': 'early', 'main_dur': 0.0},
+                                        {'name': 'L2', 'callers': [{'c': 2, 'k': 'a'}], 'life': 'full'}],
+                              'func': {'dur': 1.0}, 'mapping': 'dict'}, 2),
+    ]
+    for fam, sc, bound in small:
+        if ctx.prop == 'C01' and sc['mapping'] == 'tiny':
+            continue
+        ctx.explore_dfs(DRIVER, COMP, TRACE, sc, fam, bound=bound, budget=2500 if ctx.tier == 'quick' else 60000,
+                        seed=ctx.seed, nontrivial=nontrivial, known_match=known_match)
     # 3. spec -> code: behaviours of the model replayed into the implementation
     cachemodel.replay_behaviours(ctx)
     return ctx.finish(
